@@ -1206,7 +1206,9 @@ pub fn c06(eng: &mut Engine, rng: &mut Rng, thorough: bool, out: &mut Out) -> Ca
         // sibling credentials: two credentials of ONE definition (same schema, definition, issuer: nothing but the sub-proof tells
         // them apart). A value restriction on a referent served by one of them must not be met by what the other one reveals.
         if round < 2 || thorough {
-            for (ca, cb) in [("a_alice", "a2_alice"), ("a2_alice", "a_alice"), ("a_alice", "b_alice")] {
+            for (pi, (ca, cb)) in [("a_alice", "a2_alice"), ("a2_alice", "a_alice"), ("a_alice", "b_alice"), ("a_alice", "a2_alice"), ("b_alice", "a_alice")].into_iter().enumerate() {
+                // the value the first credential shows: under a single referent, or (last two pairs) inside a revealed group
+                let own_in_group = pi >= 3;
                 let ha = eng.cast.cred(ca);
                 let hb = eng.cast.cred(cb);
                 let va = eng.cast.creds[ha].values.clone();
@@ -1216,10 +1218,11 @@ pub fn c06(eng: &mut Engine, rng: &mut Rng, thorough: bool, out: &mut Out) -> Ca
                 let plan = Plan {
                     creds: vec![CredUse { held: ha, state_list: None, ts_only: None }, CredUse { held: hb, state_list: None, ts_only: None }],
                     refs: vec![
-                        mk("own", Kind::Single(va[0].0.clone()), 0, true),
+                        if own_in_group { mk("own", Kind::Group(vec![va[0].0.clone(), va[2].0.clone()]), 0, true) } else { mk("own", Kind::Single(va[0].0.clone()), 0, true) },
                         mk("sib_pred", Kind::Pred(pn.clone(), "GE", pv - 1), 1, false),
                         mk("sib_unrev", Kind::Single(vb[3].0.clone()), 1, false),
                         mk("sib_group", Kind::Group(vec![vb[2].0.clone(), vb[3].0.clone()]), 1, true),
+                        mk("own_pred", Kind::Pred(va[1].0.clone(), "GE", 1), 0, false),
                     ],
                     global_nr: None,
                     nonce: format!("{}", 1000 + rng.below(1_000_000_000)),
@@ -1231,12 +1234,12 @@ pub fn c06(eng: &mut Engine, rng: &mut Rng, thorough: bool, out: &mut Out) -> Ca
                 let same_def = eng.cast.creds[ha].def == eng.cast.creds[hb].def;
                 // the value credential 0 reveals under `own`; credential 1 holds another value for that attribute and does not reveal it
                 let q = json!({ format!("attr::{}::value", va[0].0): va[0].1 });
-                for (referent, section) in [("own", "requested_attributes"), ("sib_pred", "requested_predicates"), ("sib_unrev", "requested_attributes"), ("sib_group", "requested_attributes")] {
+                for (referent, section) in [("own", "requested_attributes"), ("own_pred", "requested_predicates"), ("sib_pred", "requested_predicates"), ("sib_unrev", "requested_attributes"), ("sib_group", "requested_attributes")] {
                     let mut r = r0.clone();
                     r[section][referent]["restrictions"] = q.clone();
                     let Some(req) = req_from(&r) else { continue };
-                    let expect = referent == "own";
-                    let cls = format!("c06:sibling:{}:{}:{}", if same_def { "same-definition" } else { "other-definition" }, referent, expect);
+                    let expect = referent == "own" || referent == "own_pred";
+                    let cls = format!("c06:sibling:{}{}:{}:{}", if same_def { "same-definition" } else { "other-definition" }, if own_in_group { ":value-in-group" } else { "" }, referent, expect);
                     if let Some(b) = &bl {
                         emit_legacy(eng, out, &mut cases, "c06.legacy", &cls, "", Some(expect), &b.pres, &b.ghosts, &b.agg, &req, &o, "safety");
                     }
